@@ -10,64 +10,338 @@ import BridgeVerif.Spec.Net
 * history / output invariants, frame (program suffix), barrier-count shift, payload erasure.
 -/
 namespace Bridge
+
+/-! ### pointwise update -/
+section
+variable {α β : Type} [DecidableEq α]
+theorem upd_apply (f : α → β) (a : α) (b : β) (x : α) : upd f a b x = if x = a then b else f x := rfl
+@[simp] theorem upd_same (f : α → β) (a : α) (b : β) : upd f a b a = b := by simp [upd]
+theorem upd_other (f : α → β) {a x : α} (b : β) (h : x ≠ a) : upd f a b x = f x := by simp [upd, h]
+theorem upd_comm (f : α → β) {a a' : α} (b b' : β) (h : a ≠ a') :
+    upd (upd f a b) a' b' = upd (upd f a' b') a b := by
+  funext x; simp only [upd]; grind
+@[simp] theorem upd_upd_same (f : α → β) (a : α) (b b' : β) : upd (upd f a b) a b' = upd f a b' := by
+  funext x; simp only [upd]; grind
+end
 section
 variable {Tid Chan Msg Out : Type} [DecidableEq Tid] [DecidableEq Chan]
 variable {wr rd : Chan → Tid} {parties : List Tid}
 
+/-! ### `step` factored as: head action, enabledness test, effect -/
+
+/-- is action `a` of thread `t` enabled in `n`? -/
+def enabledAct (parties : List Tid) (n : Net Tid Chan Msg Out) (t : Tid) : Act Chan Msg Out → Bool
+  | .recv c => !(n.chan c).isEmpty
+  | .depart => canDepart parties n t
+  | _ => true
+
+/-- effect of action `a` of thread `t` (whose remaining program becomes `rest`) -/
+def applyAct (n : Net Tid Chan Msg Out) (t : Tid) (rest : List (Act Chan Msg Out)) :
+    Act Chan Msg Out → Net Tid Chan Msg Out
+  | .send c m => { n with prog := upd n.prog t rest, chan := upd n.chan c (n.chan c ++ [m]),
+                          hist := upd n.hist c (n.hist c ++ [m]) }
+  | .recv c => { n with prog := upd n.prog t rest, chan := upd n.chan c (n.chan c).tail }
+  | .arrive => { n with prog := upd n.prog t rest, arrived := upd n.arrived t (n.arrived t + 1) }
+  | .depart => { n with prog := upd n.prog t rest, departed := upd n.departed t (n.departed t + 1) }
+  | .emit o => { n with prog := upd n.prog t rest, outs := upd n.outs t (n.outs t ++ [o]) }
+
+theorem step_eq (n : Net Tid Chan Msg Out) (t : Tid) :
+    step parties n t = match n.prog t with
+      | [] => none
+      | a :: rest => if enabledAct parties n t a then some (applyAct n t rest a) else none := by
+  unfold step
+  split
+  · simp [*]
+  · simp [*, enabledAct, applyAct]
+  · rename_i c rest h
+    simp only [h]
+    split <;> simp [*, enabledAct, applyAct]
+  · simp [*, enabledAct, applyAct]
+  · by_cases hc : canDepart parties n t = true <;> simp [*, enabledAct, applyAct]
+  · simp [*, enabledAct, applyAct]
+
+theorem step_some_iff {n n' : Net Tid Chan Msg Out} {t : Tid} :
+    step parties n t = some n' ↔
+      ∃ a rest, n.prog t = a :: rest ∧ enabledAct parties n t a = true ∧ n' = applyAct n t rest a := by
+  rw [step_eq]
+  split
+  · simp [*]
+  · rename_i a rest h
+    simp only [h]
+    constructor
+    · intro h'
+      split at h'
+      · exact ⟨a, rest, rfl, by assumption, by simpa using h'.symm⟩
+      · simp at h'
+    · rintro ⟨a', rest', h1, h2, h3⟩
+      cases h1
+      simp [h2, h3]
+
+omit [DecidableEq Tid] [DecidableEq Chan] in
+theorem canDepart_iff {n : Net Tid Chan Msg Out} {t : Tid} :
+    canDepart parties n t = true ↔ ∀ q ∈ parties, n.departed t < n.arrived q := by
+  simp [canDepart, List.all_eq_true]
+
+theorem enabledAct_applyAct {n : Net Tid Chan Msg Out} {t u : Tid} {a b : Act Chan Msg Out}
+    (r : List (Act Chan Msg Out)) (htu : t ≠ u)
+    (hrr : ∀ c, a = .recv c → b = .recv c → False)
+    (hb : enabledAct parties n u b = true) : enabledAct parties (applyAct n t r a) u b = true := by
+  cases b with
+  | send c m => rfl
+  | arrive => rfl
+  | emit o => rfl
+  | recv c =>
+    cases a <;> simp_all [enabledAct, applyAct, upd_apply] <;> split <;> simp_all
+  | depart =>
+    simp only [enabledAct, canDepart_iff] at hb ⊢
+    cases a <;> simp_all [applyAct, upd_apply]
+    · intro q hq
+      have := hb q hq
+      by_cases hq' : q = t
+      · subst hq'; rw [if_pos rfl]; omega
+      · rw [if_neg hq']; exact this
+    · intro q hq; have := hb q hq; rw [if_neg (Ne.symm htu)]; exact this
+
+theorem applyAct_comm {n : Net Tid Chan Msg Out} {t u : Tid} {a b : Act Chan Msg Out}
+    (r r' : List (Act Chan Msg Out)) (htu : t ≠ u)
+    (hss : ∀ c m m', a = .send c m → b = .send c m' → False)
+    (hrr : ∀ c, a = .recv c → b = .recv c → False)
+    (ha : enabledAct parties n t a = true) (hb : enabledAct parties n u b = true) :
+    applyAct (applyAct n t r a) u r' b = applyAct (applyAct n u r' b) t r a := by
+  have hp := upd_comm n.prog r r' htu
+  cases a <;> cases b <;> simp [applyAct, hp]
+  case send.send c m c' m' =>
+    have hc : c ≠ c' := fun h => hss c m m' rfl (by rw [h])
+    rw [upd_other _ _ (Ne.symm hc), upd_other _ _ hc, upd_comm _ _ _ hc,
+      upd_other _ _ (Ne.symm hc), upd_other _ _ hc, upd_comm n.hist _ _ hc]
+    exact ⟨rfl, rfl⟩
+  case send.recv c m c' =>
+    by_cases hc : c = c'
+    · subst hc
+      have : n.chan c ≠ [] := by simpa [enabledAct] using hb
+      simp [List.tail_append_of_ne_nil this]
+    · rw [upd_other _ _ (Ne.symm hc), upd_other _ _ hc, upd_comm _ _ _ hc]
+  case recv.send c c' m =>
+    by_cases hc : c = c'
+    · subst hc
+      have : n.chan c ≠ [] := by simpa [enabledAct] using ha
+      simp [List.tail_append_of_ne_nil this]
+    · rw [upd_other _ _ (Ne.symm hc), upd_other _ _ hc, upd_comm _ _ _ hc]
+  case recv.recv c c' =>
+    have hc : c ≠ c' := fun h => hrr c rfl (by rw [h])
+    rw [upd_other _ _ (Ne.symm hc), upd_other _ _ hc, upd_comm _ _ _ hc]
+  all_goals rw [upd_other _ _ (Ne.symm htu), upd_other _ _ htu, upd_comm _ _ _ htu]
+
+theorem applyAct_prog (n : Net Tid Chan Msg Out) (t : Tid) (rest : List (Act Chan Msg Out))
+    (a : Act Chan Msg Out) : (applyAct n t rest a).prog = upd n.prog t rest := by
+  cases a <;> rfl
+
+omit [DecidableEq Tid] [DecidableEq Chan] in
+/-- different threads of a disciplined net never both send on, or both receive from, one channel -/
+theorem disciplined_noconflict {prog : Tid → List (Act Chan Msg Out)} {t u : Tid}
+    {a b : Act Chan Msg Out} {r r' : List (Act Chan Msg Out)}
+    (hd : Disciplined wr rd prog) (htu : t ≠ u) (ha : prog t = a :: r) (hb : prog u = b :: r') :
+    (∀ c m m', a = .send c m → b = .send c m' → False) ∧ (∀ c, a = .recv c → b = .recv c → False) := by
+  have h1 := hd t a (by rw [ha]; exact List.mem_cons_self)
+  have h2 := hd u b (by rw [hb]; exact List.mem_cons_self)
+  constructor
+  · intro c m m' e1 e2
+    exact htu ((h1.1 c m e1).trans (h2.1 c m' e2).symm)
+  · intro c e1 e2
+    exact htu ((h1.2 c e1).trans (h2.2 c e2).symm)
+
 /-- a step only shortens the program of the stepping thread: discipline is preserved -/
 theorem step_disciplined {n n' : Net Tid Chan Msg Out} {t : Tid}
     (hd : Disciplined wr rd n.prog) (h : step parties n t = some n') : Disciplined wr rd n'.prog := by
-  sorry
+  obtain ⟨a, rest, h1, -, rfl⟩ := step_some_iff.1 h
+  intro s b hb
+  rw [applyAct_prog, upd_apply] at hb
+  split at hb
+  · subst s; exact hd t b (by rw [h1]; exact List.mem_cons_of_mem _ hb)
+  · exact hd s b hb
 
 theorem run_disciplined {n n' : Net Tid Chan Msg Out} {ts : List Tid}
     (hd : Disciplined wr rd n.prog) (h : Run parties n ts n') : Disciplined wr rd n'.prog := by
-  sorry
+  induction h with
+  | nil => exact hd
+  | cons hs _ ih => exact ih (step_disciplined hd hs)
+
+theorem step_diamond_aux {n n1 n2 : Net Tid Chan Msg Out} {t u : Tid}
+    (hd : Disciplined wr rd n.prog) (htu : t ≠ u)
+    (ht : step parties n t = some n1) (hu : step parties n u = some n2) :
+    ∃ n3, step parties n1 u = some n3 ∧ step parties n2 t = some n3 := by
+  obtain ⟨a, r, hpa, hea, rfl⟩ := step_some_iff.1 ht
+  obtain ⟨b, r', hpb, heb, rfl⟩ := step_some_iff.1 hu
+  obtain ⟨hss, hrr⟩ := disciplined_noconflict hd htu hpa hpb
+  refine ⟨applyAct (applyAct n t r a) u r' b, ?_, ?_⟩
+  · rw [step_some_iff]
+    refine ⟨b, r', ?_, enabledAct_applyAct r htu hrr heb, rfl⟩
+    rw [applyAct_prog, upd_other _ _ (Ne.symm htu), hpb]
+  · rw [step_some_iff]
+    refine ⟨a, r, ?_, enabledAct_applyAct r' (Ne.symm htu) (fun c h1 h2 => hrr c h2 h1) hea,
+      applyAct_comm r r' htu hss hrr hea heb⟩
+    rw [applyAct_prog, upd_other _ _ htu, hpa]
 
 /-- **No lost wake-up.** -/
 theorem step_persistent {n n1 : Net Tid Chan Msg Out} {t u : Tid}
     (hd : Disciplined wr rd n.prog) (htu : t ≠ u)
     (ht : step parties n t = some n1) (hu : (step parties n u).isSome) : (step parties n1 u).isSome := by
-  sorry
+  cases hn2 : step parties n u with
+  | none => simp [hn2] at hu
+  | some n2 =>
+    obtain ⟨n3, h3, -⟩ := step_diamond_aux hd htu ht hn2
+    simp [h3]
 
 /-- **Diamond.** -/
 theorem step_diamond {n n1 n2 : Net Tid Chan Msg Out} {t u : Tid}
     (hd : Disciplined wr rd n.prog) (htu : t ≠ u)
     (ht : step parties n t = some n1) (hu : step parties n u = some n2) :
     ∃ n3, step parties n1 u = some n3 ∧ step parties n2 t = some n3 := by
-  sorry
+  exact step_diamond_aux hd htu ht hu
+
+/-- one step off a run to a stuck state: the rest of the run can be rearranged -/
+theorem run_strip {n nf n' : Net Tid Chan Msg Out} {ts : List Tid} {u : Tid}
+    (hd : Disciplined wr rd n.prog) (hr : Run parties n ts nf) (hs : Stuck parties nf)
+    (hu : step parties n u = some n') : ∃ ts', Run parties n' ts' nf ∧ ts'.length + 1 = ts.length := by
+  induction hr generalizing n' with
+  | nil n => rw [hs u] at hu; cases hu
+  | @cons n n1 nf t ts hstep hrest ih =>
+    by_cases htu : t = u
+    · subst htu
+      rw [hstep] at hu
+      cases hu
+      exact ⟨ts, hrest, rfl⟩
+    · obtain ⟨n3, h3, h3'⟩ := step_diamond_aux hd htu hstep hu
+      obtain ⟨ts', hr', hl⟩ := ih (step_disciplined hd hstep) hs h3
+      exact ⟨t :: ts', Run.cons h3' hr', by simp [hl]⟩
+
+theorem confluence_aux {n n' : Net Tid Chan Msg Out} {us : List Tid} (hr' : Run parties n us n') :
+    ∀ {nf : Net Tid Chan Msg Out} {ts : List Tid}, Disciplined wr rd n.prog → Run parties n ts nf →
+      Stuck parties nf → ∃ vs, Run parties n' vs nf ∧ us.length + vs.length = ts.length := by
+  induction hr' with
+  | nil n => intro nf ts _ hr _; exact ⟨ts, hr, by simp⟩
+  | @cons n n1 n' u us hstep _ ih =>
+    intro nf ts hd hr hs
+    obtain ⟨ts', hr1, hl⟩ := run_strip hd hr hs hstep
+    obtain ⟨vs, hv, hl'⟩ := ih (step_disciplined hd hstep) hr1 hs
+    exact ⟨vs, hv, by simp only [List.length_cons]; omega⟩
 
 /-- **Confluence.** -/
 theorem confluence {n nf : Net Tid Chan Msg Out} {ts : List Tid}
     (hd : Disciplined wr rd n.prog) (hr : Run parties n ts nf) (hs : Stuck parties nf) :
     ∀ (us : List Tid) (n' : Net Tid Chan Msg Out), Run parties n us n' →
       ∃ vs, Run parties n' vs nf ∧ us.length + vs.length = ts.length := by
-  sorry
+  intro us n' hr'
+  exact confluence_aux hr' hd hr hs
 
 /-- every maximal run ends in the same state -/
 theorem maximal_runs_agree {n nf n' : Net Tid Chan Msg Out} {ts us : List Tid}
     (hd : Disciplined wr rd n.prog) (hr : Run parties n ts nf) (hs : Stuck parties nf)
     (hr' : Run parties n us n') (hs' : Stuck parties n') : n' = nf ∧ us.length = ts.length := by
-  sorry
+  obtain ⟨vs, hv, hl⟩ := confluence hd hr hs us n' hr'
+  cases hv with
+  | nil => exact ⟨rfl, by simpa using hl⟩
+  | cons hstep _ => rw [hs' _] at hstep; cases hstep
 
 /-- `runSched` and `Run` are the same thing -/
 theorem runSched_iff_run {n n' : Net Tid Chan Msg Out} {ts : List Tid} :
     runSched parties n ts = some n' ↔ Run parties n ts n' := by
-  sorry
+  induction ts generalizing n with
+  | nil =>
+    simp only [runSched]
+    constructor
+    · intro h; cases h; exact Run.nil _
+    · intro h; cases h; rfl
+  | cons t ts ih =>
+    simp only [runSched]
+    constructor
+    · intro h
+      cases hst : step parties n t with
+      | none => simp [hst] at h
+      | some n1 =>
+        simp only [hst] at h
+        exact Run.cons hst (ih.1 h)
+    · intro h
+      cases h with
+      | cons hst hrest =>
+        simp only [hst]
+        exact ih.2 hrest
 
 /-- a net whose threads have all finished is stuck -/
 theorem allDone_stuck {n : Net Tid Chan Msg Out} (h : AllDone n) : Stuck parties n := by
-  sorry
+  intro t
+  rw [step_eq, h t]
+
+theorem sendsOn_cons_of_not_send {c : Chan} {a : Act Chan Msg Out} {r : List (Act Chan Msg Out)}
+    (h : ∀ m, a ≠ .send c m) : sendsOn c (a :: r) = sendsOn c r := by
+  cases a with
+  | send c' m =>
+    have : c' ≠ c := fun e => h m (by rw [e])
+    simp [sendsOn, this]
+  | _ => rfl
+
+theorem applyAct_hist_of_not_send {c : Chan} (n : Net Tid Chan Msg Out) (t : Tid)
+    (r : List (Act Chan Msg Out)) {a : Act Chan Msg Out} (h : ∀ m, a ≠ .send c m) :
+    (applyAct n t r a).hist c = n.hist c := by
+  cases a with
+  | send c' m =>
+    have : c ≠ c' := fun e => h m (by rw [e])
+    simp [applyAct, upd_other _ _ this]
+  | _ => rfl
+
+theorem step_hist {n n' : Net Tid Chan Msg Out} {t : Tid} (hd : Disciplined wr rd n.prog)
+    (h : step parties n t = some n') (c : Chan) :
+    n'.hist c ++ sendsOn c (n'.prog (wr c)) = n.hist c ++ sendsOn c (n.prog (wr c)) := by
+  obtain ⟨a, r, hp, -, rfl⟩ := step_some_iff.1 h
+  rw [applyAct_prog]
+  by_cases hs : ∃ m, a = .send c m
+  · obtain ⟨m, rfl⟩ := hs
+    have ht : t = wr c := (hd t _ (by rw [hp]; exact List.mem_cons_self)).1 c m rfl
+    subst ht
+    simp [applyAct, hp, sendsOn]
+  · have hs' : ∀ m, a ≠ .send c m := fun m e => hs ⟨m, e⟩
+    rw [applyAct_hist_of_not_send n t r hs']
+    by_cases ht : wr c = t
+    · rw [ht, upd_same, hp, sendsOn_cons_of_not_send hs']
+    · rw [upd_other _ _ ht]
+
+theorem run_hist_aux {n n' : Net Tid Chan Msg Out} {us : List Tid} (hr : Run parties n us n')
+    (hd : Disciplined wr rd n.prog) (c : Chan) :
+    n'.hist c ++ sendsOn c (n'.prog (wr c)) = n.hist c ++ sendsOn c (n.prog (wr c)) := by
+  induction hr with
+  | nil => rfl
+  | cons hs _ ih => rw [ih (step_disciplined hd hs), step_hist hd hs]
 
 /-! ### what has been sent / emitted so far plus what is still to come is constant -/
 theorem run_hist {prog0 : Tid → List (Act Chan Msg Out)} {n : Net Tid Chan Msg Out} {us : List Tid}
     (hd : Disciplined wr rd prog0) (hr : Run parties (Net.init prog0) us n) (c : Chan) :
     n.hist c ++ sendsOn c (n.prog (wr c)) = sendsOn c (prog0 (wr c)) := by
-  sorry
+  have := run_hist_aux hr hd c
+  simpa [Net.init] using this
+
+theorem step_outs {n n' : Net Tid Chan Msg Out} {t : Tid}
+    (h : step parties n t = some n') (s : Tid) :
+    n'.outs s ++ emitsOf (n'.prog s) = n.outs s ++ emitsOf (n.prog s) := by
+  obtain ⟨a, r, hp, -, rfl⟩ := step_some_iff.1 h
+  rw [applyAct_prog]
+  by_cases hst : s = t
+  · subst hst
+    rw [upd_same, hp]
+    cases a <;> simp [applyAct, emitsOf]
+  · rw [upd_other _ _ hst]
+    cases a <;> simp [applyAct, upd_other _ _ hst]
+
+theorem run_outs_aux {n n' : Net Tid Chan Msg Out} {us : List Tid} (hr : Run parties n us n')
+    (s : Tid) : n'.outs s ++ emitsOf (n'.prog s) = n.outs s ++ emitsOf (n.prog s) := by
+  induction hr with
+  | nil => rfl
+  | cons hs _ ih => rw [ih, step_outs hs]
 
 theorem run_outs {prog0 : Tid → List (Act Chan Msg Out)} {n : Net Tid Chan Msg Out} {us : List Tid}
     (hr : Run parties (Net.init prog0) us n) (t : Tid) :
     n.outs t ++ emitsOf (n.prog t) = emitsOf (prog0 t) := by
-  sorry
+  have := run_outs_aux hr t
+  simpa [Net.init] using this
 
 /-- every step shortens exactly one program by one action -/
 def Net.remaining (n : Net Tid Chan Msg Out) (all : List Tid) : Nat := (all.map fun t => (n.prog t).length).sum
@@ -76,27 +350,107 @@ def Net.remaining (n : Net Tid Chan Msg Out) (all : List Tid) : Nat := (all.map 
 def Net.appendProg (n : Net Tid Chan Msg Out) (rest : Tid → List (Act Chan Msg Out)) : Net Tid Chan Msg Out :=
   { n with prog := fun t => n.prog t ++ rest t }
 
+theorem step_append {n n' : Net Tid Chan Msg Out} {t : Tid} (rest : Tid → List (Act Chan Msg Out))
+    (h : step parties n t = some n') :
+    step parties (n.appendProg rest) t = some (n'.appendProg rest) := by
+  obtain ⟨a, r, hp, he, rfl⟩ := step_some_iff.1 h
+  rw [step_some_iff]
+  refine ⟨a, r ++ rest t, by simp [Net.appendProg, hp], ?_, ?_⟩
+  · rw [← he]; cases a <;> rfl
+  · have : (fun s => upd n.prog t r s ++ rest s) = upd (fun s => n.prog s ++ rest s) t (r ++ rest t) := by
+      funext s; simp only [upd_apply]; split <;> simp_all
+    cases a <;> simp [applyAct, Net.appendProg, this]
+
 theorem run_append {n n' : Net Tid Chan Msg Out} {ts : List Tid} (rest : Tid → List (Act Chan Msg Out))
     (h : Run parties n ts n') : Run parties (n.appendProg rest) ts (n'.appendProg rest) := by
-  sorry
+  induction h with
+  | nil => exact Run.nil _
+  | cons hs _ ih => exact Run.cons (step_append rest hs) ih
 
 /-! ### the barrier only compares counts: a common offset is irrelevant -/
 def Net.shift (k : Nat) (n : Net Tid Chan Msg Out) : Net Tid Chan Msg Out :=
   { n with arrived := fun t => n.arrived t + k, departed := fun t => n.departed t + k }
 
+theorem step_shift {n n' : Net Tid Chan Msg Out} {t : Tid} (k : Nat)
+    (h : step parties n t = some n') : step parties (n.shift k) t = some (n'.shift k) := by
+  obtain ⟨a, r, hp, he, rfl⟩ := step_some_iff.1 h
+  rw [step_some_iff]
+  refine ⟨a, r, hp, ?_, ?_⟩
+  · cases a with
+    | depart =>
+      simp only [enabledAct, canDepart_iff] at he ⊢
+      intro q hq
+      have := he q hq
+      simp only [Net.shift]
+      omega
+    | _ => exact he
+  · have h1 : ∀ (f : Tid → Nat), (fun s => upd f t (f t + 1) s + k) = upd (fun s => f s + k) t (f t + k + 1) := by
+      intro f; funext s; simp only [upd_apply]; split <;> omega
+    cases a <;> simp [applyAct, Net.shift, h1]
+
 theorem run_shift {n n' : Net Tid Chan Msg Out} {ts : List Tid} (k : Nat)
     (h : Run parties n ts n') : Run parties (n.shift k) ts (n'.shift k) := by
-  sorry
+  induction h with
+  | nil => exact Run.nil _
+  | cons hs _ ih => exact Run.cons (step_shift k hs) ih
+
+omit [DecidableEq Tid] [DecidableEq Chan] in
+theorem enabledAct_erase (n : Net Tid Chan Msg Out) (t : Tid) (a : Act Chan Msg Out) :
+    enabledAct parties n.erase t a.erase = enabledAct parties n t a := by
+  cases a with
+  | recv c => simp [enabledAct, Act.erase, Net.erase]
+  | _ => rfl
+
+theorem applyAct_erase (n : Net Tid Chan Msg Out) (t : Tid) (r : List (Act Chan Msg Out))
+    (a : Act Chan Msg Out) :
+    applyAct n.erase t (r.map Act.erase) a.erase = (applyAct n t r a).erase := by
+  have hp : upd (fun s => (n.prog s).map Act.erase) t (r.map Act.erase)
+      = fun s => (upd n.prog t r s).map Act.erase := by
+    funext s; simp only [upd_apply]; split <;> rfl
+  have hl : ∀ {κ X : Type} [DecidableEq κ] (f : κ → List X) (x : κ) (l : List X),
+      upd (fun s => (f s).map fun _ => ()) x (l.map fun _ => ()) = fun s => (upd f x l s).map fun _ => () := by
+    intro κ X _ f x l; funext s; simp only [upd_apply]; split <;> rfl
+  cases a with
+  | send c m =>
+    have := hl n.chan c (n.chan c ++ [m])
+    have := hl n.hist c (n.hist c ++ [m])
+    simp_all [applyAct, Act.erase, Net.erase]
+  | recv c =>
+    have := hl n.chan c (n.chan c).tail
+    simp_all [applyAct, Act.erase, Net.erase]
+  | arrive => simp [applyAct, Act.erase, Net.erase, hp]
+  | depart => simp [applyAct, Act.erase, Net.erase, hp]
+  | emit o =>
+    have := hl n.outs t (n.outs t ++ [o])
+    simp_all [applyAct, Act.erase, Net.erase]
 
 /-! ### enabledness never depends on payloads -/
 theorem step_erase (n : Net Tid Chan Msg Out) (t : Tid) :
     step parties n.erase t = (step parties n t).map Net.erase := by
-  sorry
+  rw [step_eq, step_eq]
+  cases hp : n.prog t with
+  | nil => simp [Net.erase, hp]
+  | cons a r =>
+    have hp' : n.erase.prog t = a.erase :: r.map Act.erase := by simp [Net.erase, hp]
+    simp only [hp', enabledAct_erase, applyAct_erase]
+    split <;> rfl
 
 /-- a run of the erased net lifts to a run of the net -/
 theorem run_of_erased {n : Net Tid Chan Msg Out} {ts : List Tid} {m : Net Tid Chan Unit Unit}
     (h : Run parties n.erase ts m) : ∃ n', Run parties n ts n' ∧ n'.erase = m := by
-  sorry
+  induction ts generalizing n with
+  | nil => cases h; exact ⟨n, Run.nil _, rfl⟩
+  | cons t ts ih =>
+    cases h with
+    | cons hst hrest =>
+      rw [step_erase] at hst
+      cases hn : step parties n t with
+      | none => simp [hn] at hst
+      | some n1 =>
+        simp only [hn, Option.map_some, Option.some.injEq] at hst
+        subst hst
+        obtain ⟨n', hr, he⟩ := ih hrest
+        exact ⟨n', Run.cons hn hr, he⟩
 
 end
 end Bridge
